@@ -89,15 +89,10 @@ impl CrashCase {
                 );
                 "panic"
             }
-            Status::Exit(c) => {
-                rep.violate(
-                    "C17",
-                    "abort",
-                    format!("{}|exit {c}", self.family),
-                    format!("[E1] `{argv}`: unexpected exit status {c}"),
-                );
-                "other"
-            }
+            // any other non-zero status is an ordinary error too (the property asks for "non-zero
+            // exit and a message", not for a particular number); 134..=159 would be a shell's
+            // rendering of a signal and never appears here (signals are reported as such)
+            Status::Exit(_) => "error",
             Status::Signal(s) => {
                 let what = o
                     .stderr
